@@ -97,6 +97,16 @@ def cases(np, pd):
     case('iterrows', lambda: [[l, r['a']] for l, r in pd.DataFrame({'a': [1.0, 2.0]}, index=[4, 6]).iterrows()])
     case('itertuples', lambda: [list(t) for t in pd.DataFrame({'a': [1.0, 2.0], 'b': ['x', 'y']}, index=[4, 6]).itertuples()])
     case('between', lambda: pd.Series([1.0, 5.0, 2.0]).between(2, 5))
+    case('value_counts > 1', lambda: sorted((pd.DataFrame({'a': [1.0, 1.0, NAN, NAN, 2.0], 'b': [1, 1, 0, 0, 3]}).value_counts(sort=False) > 1).tolist()))
+    case('loc column slice', lambda: list(pd.DataFrame({'t': [1], 'dt': [2.0], 'x': [3], 'height': [4.0]}).loc[[True], 'dt':'height'].columns))
+    case('filter regex + to_numpy(float)', lambda: pd.DataFrame({'x_id': [1, 2], 'dt': [0.5, 1.5], 'y_id': [3, -1]}).filter(regex='_id$').to_numpy(dtype=float))
+    empty = lambda: pd.DataFrame({'a': [1.0]}).drop([0])   # noqa: E731
+    case('empty frame: loc new column scalar', lambda: (lambda d: (d.loc.__setitem__((slice(None), 'new'), -1), list(d.columns))[1])(empty()))
+    case('empty frame: loc existing column scalar', lambda: (lambda d: (d.loc.__setitem__((slice(None), 'a'), -1), list(d.columns), len(d))[1:])(empty()))
+    case('empty frame: setitem scalar', lambda: (lambda d: (d.__setitem__('new', -1), list(d.columns), len(d))[1:])(empty()))
+    case('empty frame: loc mask list-col scalar', lambda: (lambda d: (d.loc.__setitem__((d['a'] > 0, ['new']), 1), list(d.columns))[1])(empty()))
+    case('empty table: loc new column scalar', lambda: (lambda d: (d.loc.__setitem__((slice(None), 'new'), 5), len(d))[1])(pd.DataFrame(index=range(0), columns=['x'])))
+    case('empty table: loc column empty list', lambda: (lambda d: (d.loc.__setitem__((slice(None), 'x'), []), len(d))[1])(pd.DataFrame(index=range(0), columns=['x'])))
     return out
 
 
